@@ -11,6 +11,7 @@ import StathamModel.Good
 import StathamModel.SerJson
 import StathamModel.ToSchema
 import StathamModel.Lemmas.ParseNF
+import StathamModel.Lemmas.SerSem
 import StathamModel.Orderer
 import StathamModel.Py.Repr
 import StathamModel.Py.EvalTree
@@ -117,6 +118,31 @@ partial def nfB (cx : PCtx) (e : Elem) : Bool :=
     e.props.all (fun p => nfB cx p.2) && e.patProps.all (fun p => nfB cx p.2) && opt e.addProps && opt e.propNames &&
     e.deps.all (fun p => nfB cx p.2) && e.elements.all (nfB cx)
 
+/-- the executable reading of `NFn` (normal form up to the attribute names of properties), for classification only -/
+partial def nfnB (cx : PCtx) (e : Elem) : Bool :=
+  let node := if e.cls == .nothing then sameRepr e Elem.nothing
+    else sameRepr (forget (assembleK cx (nodeSKw e.cls e.kw e.props) (nodeKids e))) (forget e)
+  let opt (o : Option Elem) : Bool := match o with
+    | some x => nfnB cx x
+    | none => true
+  node && e.items.all (nfnB cx) && opt e.addItems && opt e.contains &&
+    e.props.all (fun p => nfnB cx p.2) && e.patProps.all (fun p => nfnB cx p.2) && opt e.addProps && opt e.propNames &&
+    e.deps.all (fun p => nfnB cx p.2) && e.elements.all (nfnB cx)
+
+/-- first node (pre-order) where the node equation up to names fails: (rebuilt, node), for diagnostics -/
+partial def nfnWhy (cx : PCtx) (e : Elem) : Option (String × String) :=
+  let here : Option (String × String) :=
+    if e.cls == .nothing then (if sameRepr e Elem.nothing then none else some ("Nothing()", toString (repr e)))
+    else
+      let r := forget (assembleK cx (nodeSKw e.cls e.kw e.props) (nodeKids e))
+      if sameRepr r (forget e) then none else some (toString (repr r), toString (repr (forget e)))
+  match here with
+  | some x => some x
+  | none =>
+    let kids : List Elem := e.items ++ e.addItems.toList ++ e.contains.toList ++ e.props.map (·.2) ++ e.patProps.map (·.2) ++
+      e.addProps.toList ++ e.propNames.toList ++ e.deps.map (·.2) ++ e.elements
+    kids.findSome? (nfnWhy cx)
+
 /-- array-form `dependencies` entries carry no schema: one placeholder on both sides of the comparison -/
 partial def blankDeps : Schema → Schema
   | .bool b => .bool b
@@ -194,10 +220,13 @@ def handle (req : Json) : R Json := do
       | some _ => getArgs req
       | none => pure []
     let fl := flagsOf cx s
-    pure (Json.mkObj [("same", same), ("nf", nfB cx el), ("good", fl.all), ("perr", match parseErr s with
+    pure (Json.mkObj [("same", same), ("nf", nfB cx el), ("nfn", nfnB cx el), ("good", fl.all), ("perr", match parseErr s with
         | some e => Json.str (perrName e)
         | none => Json.null),
       ("round_trip_identity", sameRepr back el), ("back", encElem back),
+      ("why", match (if (getField req "explain").isSome then nfnWhy cx el else none) with
+        | some (a, b) => Json.mkObj [("rebuilt", a), ("node", b)]
+        | none => Json.null),
       ("valid", Json.arr (args.map fun a => match a with
         | .val v => Json.bool (D6.valid env typeHasObject s v)
         | .notPassed => Json.null).toArray),
